@@ -18,8 +18,8 @@ YEAR = 365 * 24 * 3600
 PROP = "C06"
 LEVEL = "exploration"
 ENGINE = "BL"
-N = {"quick": 4000, "thorough": 300000}
-TIME = {"quick": 40, "thorough": 420}
+N = {"quick": 2500, "thorough": 300000}
+TIME = {"quick": 300, "thorough": 420}
 RULE = ("Random (cash balance of either sign 1e-2..1e9, reference rate in [-0.05, 0.25), markup >= 0 with 1+rate-markup>0, "
         "interval 1 s .. 40 y, k in {1,2,5,50,500} random cuts). The final balance is compared with a 60-digit decimal closed "
         "form B*(1+r-/+m)^(s/31536000) (floored at B for positive balances); twin brokers with/without accrue=False queries must "
